@@ -275,14 +275,13 @@ def check(prog, rep, tier):
         inc = [e for e in p.events if e.kind == "call" and e.name == "increment"]
         ins = [e for e in p.events if e.kind == "call" and e.name == "_insert_fingerprint_alt"]
         pr = presence(p)
+        if pr is not None and pr[0] == "infeasible":
+            continue
         present = pr is not None and pr[0] == "present"
         if inc:
             seen = True
-            hit = [c for c in p.conds if c.loops and c.truth and c.atom[0] == "cmp" and c.atom[1] == "in"]
-            kt = key_triple(p)
-            fpv = [strip_epochs(e.args[2]) for e in p.events if e.kind == "call" and e.name == "_check_if_present" and len(e.args) == 3] or ([kt[2]] if kt else [])
-            if not present or len(inc) != 1 or ins or not hit or strip_epochs(hit[-1].atom[3]) != strip_epochs(inc[0].recv) \
-                    or not fpv or strip_epochs(hit[-1].atom[2]) != fpv[0]:
+            # the bin that is incremented is the one found to hold the key's fingerprint
+            if not present or len(inc) != 1 or ins or pr[1] is None or strip_epochs(inc[0].recv) != pr[1]:
                 rep.bad("C08.cc-add-present", f"{CC}.add", "increment", "a present key's add does not increment exactly the bin holding its fingerprint", inc[0].where())
                 oka = False
         if present and not inc and ins and not any(c.atom[0] == "loop0" for c in p.conds) and not any(c.loops for c in p.conds):
@@ -297,6 +296,8 @@ def check(prog, rep, tier):
     okr, seen = True, False
     for p in cpaths(prog, CC, rm):
         pr = presence(p)
+        if pr is not None and pr[0] == "infeasible":
+            continue
         absent = pr is not None and pr[0] == "absent"
         muts = [e for e in p.events if (e.kind == "call" and e.name in ("decrement", "increment", "remove", "pop", "append", "__delitem__")) or e.kind in ("setfield", "setelem")]
         if absent:
@@ -307,8 +308,8 @@ def check(prog, rep, tier):
         dec = [e for e in p.events if e.kind == "call" and e.name == "decrement"]
         if dec:
             seen = True
-            hit = [c for c in p.conds if c.loops and c.truth and c.atom[0] == "cmp" and c.atom[1] == "in"]
-            if len(dec) != 1 or not hit or strip_epochs(hit[-1].atom[3]) != strip_epochs(dec[0].recv) or strip_epochs(p.exit[1]) != C(True):
+            found = pr[1] if pr is not None and pr[0] == "present" else None
+            if len(dec) != 1 or found is None or found != strip_epochs(dec[0].recv) or strip_epochs(p.exit[1]) != C(True):
                 rep.bad("C08.cc-remove", f"{CC}.remove", "decrement", "remove does not decrement exactly the bin holding the key's fingerprint and report True", dec[0].where())
                 okr = False
     if okr and seen:
